@@ -18,6 +18,10 @@ pub struct World {
 /// Where foreign trees are built: a directory of this process under `/tmp` (a disk in this sandbox,
 /// while worlds are on the tmpfs `/dev/shm`); if that cannot be made, beside the world (the same
 /// device: nothing that depends on device numbers manifests then, nothing else changes).
+extern "C" {
+    fn mkfifo(path: *const std::os::raw::c_char, mode: u32) -> i32;
+}
+
 fn foreign_root(root: &Path) -> PathBuf {
     let tag = crate::rng::hash_bytes(0, root.to_string_lossy().as_bytes());
     for top in ["/tmp", "/var/tmp"] {
@@ -67,6 +71,13 @@ impl World {
                 },
                 Kind::Dir => {
                     fs::create_dir(&p).map_err(|e| format!("mkdir {:?}: {}", p, e))?;
+                },
+                Kind::Fifo => {
+                    use std::os::unix::ffi::OsStrExt;
+                    let c = std::ffi::CString::new(p.as_os_str().as_bytes()).map_err(|e| e.to_string())?;
+                    if unsafe { mkfifo(c.as_ptr(), 0o644) } != 0 {
+                        return Err(format!("mkfifo {:?}: {}", p, std::io::Error::last_os_error()));
+                    }
                 },
                 Kind::Link { target } => {
                     symlink(os(&world.subst(target)), &p)
@@ -123,6 +134,9 @@ impl World {
                     out.push((r.clone(), 'd'));
                     rec(&ent.path(), &r, out)?;
                 }
+                else if std::os::unix::fs::FileTypeExt::is_fifo(&ft) {
+                    out.push((r, 'p'));
+                }
                 else {
                     out.push((r, 'f'));
                 }
@@ -141,6 +155,7 @@ impl World {
                         Kind::File => 'f',
                         Kind::Dir => 'd',
                         Kind::Link { .. } => 'l',
+                        Kind::Fifo => 'p',
                     },
                 )
             })
